@@ -631,25 +631,31 @@ fn contains_run(hay: &[bool], needle: &[bool]) -> bool {
     needle.len() <= hay.len() && hay.windows(needle.len()).any(|w| w == needle)
 }
 
+/// The r-th execution of a group: coins, schedule seed and (canary) inputs are functions of (group seed, r).
+fn c06_run_spec(g: &C06Group, r: usize, canary: bool) -> MpcSpec {
+    let mut rng = entropy::rng(g.group_seed, 0xc06b, r as u64);
+    let value = r % 2 == 1;
+    let mut s = g.base.clone();
+    if !canary {
+        s.inputs = s.inputs.iter().map(|i| (if value { "1" } else { "0" }).repeat(i.len())).collect();
+    } else {
+        s.inputs = s.inputs.iter().map(|i| (0..i.len()).map(|_| if rng.random() { '1' } else { '0' }).collect()).collect();
+    }
+    s.seed = rng.random();
+    s.sched.seed = rng.random();
+    s
+}
+
 fn c06_group(g: &C06Group) -> (Vec<Violation>, CaseOut) {
     let sv = serde_json::to_value(g).unwrap();
     let mut out = CaseOut::default();
     let mut v = vec![];
     let n = g.base.n();
-    let mut rng = entropy::rng(g.group_seed, 0xc06a, 0);
     // counts[(owner, w)][value] = (ones, total)
     let mut counts: BTreeMap<(usize, usize), [(u64, u64); 2]> = BTreeMap::new();
     let canary = g.base.inputs.iter().any(|i| i.len() >= 128) && !g.balance_wide;
     for r in 0..g.runs {
-        let value = r % 2 == 1;
-        let mut s = g.base.clone();
-        if !canary {
-            s.inputs = s.inputs.iter().map(|i| (if value { "1" } else { "0" }).repeat(i.len())).collect();
-        } else {
-            s.inputs = s.inputs.iter().map(|i| (0..i.len()).map(|_| if rng.random() { '1' } else { '0' }).collect()).collect();
-        }
-        s.seed = rng.random();
-        s.sched.seed = rng.random();
+        let s = c06_run_spec(g, r, canary);
         let run = mpcrun::run(&s, None);
         out.evals += 1;
         out.sim_steps += run.res.steps;
@@ -678,10 +684,10 @@ fn c06_group(g: &C06Group) -> (Vec<Violation>, CaseOut) {
         for p in 0..n {
             for pr in &run.res.probes[p] {
                 if pr.site == "delta" {
-                    out.carry.push(json!({"k": entropy::fnv(0, &pr.data)}));
+                    out.carry.push(json!({"k": entropy::fnv(0, &pr.data), "gs": g.group_seed, "r": r, "p": p}));
                 }
                 if pr.site == "input_mask_bits" && pr.data.len() >= 64 {
-                    out.carry.push(json!({"m": entropy::fnv(0, &pr.data)}));
+                    out.carry.push(json!({"m": entropy::fnv(0, &pr.data), "gs": g.group_seed, "r": r, "p": p}));
                 }
             }
         }
@@ -812,12 +818,28 @@ impl Check for C06 {
         let (v, mut out) = c06_group(&g);
         out.distinct.push(g.group_seed);
         out.distinct.push(g.group_seed ^ 1);
+        out.carry.push(json!({"group": g}));
         out.violations = v;
         out.samples.push(json!({"configuration": g.base.sample(), "executions": g.runs, "canary": case["canary"]}));
         out
     }
     fn replay(&self, spec: &Value) -> Vec<Violation> {
-        if spec.get("duplicates").is_some() {
+        if let Some(what) = spec.get("duplicates").and_then(|d| d.as_str()) {
+            // re-execute the two executions named in the spec and compare the probed values
+            let site = if what == "keys" { "delta" } else { "input_mask_bits" };
+            let mut vals = vec![];
+            for side in ["a", "b"] {
+                let Ok(g) = serde_json::from_value::<C06Group>(spec[side]["group"].clone()) else { return vec![] };
+                let r = spec[side]["r"].as_u64().unwrap_or(0) as usize;
+                let p = spec[side]["p"].as_u64().unwrap_or(0) as usize;
+                let canary = g.base.inputs.iter().any(|i| i.len() >= 128) && !g.balance_wide;
+                let run = mpcrun::run(&c06_run_spec(&g, r, canary), None);
+                vals.push(run.res.probes[p].iter().find(|x| x.site == site).map(|x| x.data.clone()));
+            }
+            if vals[0].is_some() && vals[0] == vals[1] {
+                let (class, key) = if what == "keys" { ("global-key-repeated", "global-key-repeated") } else { ("mask-vector-repeated", "mask-vector-repeated") };
+                return vec![viol(class, key, format!("the same {} was used in two different (execution, party) pairs", if what == "keys" { "global key" } else { "own-mask vector" }), spec)];
+            }
             return vec![];
         }
         match serde_json::from_value::<C06Group>(spec.clone()) {
@@ -826,28 +848,38 @@ impl Check for C06 {
         }
     }
     fn finish(&self, carries: &[Value], _tier: Tier) -> (Vec<Violation>, BTreeMap<String, Value>) {
-        let mut keys: BTreeMap<u64, u32> = BTreeMap::new();
-        let mut masks: BTreeMap<u64, u32> = BTreeMap::new();
+        let mut groups: BTreeMap<u64, Value> = BTreeMap::new();
+        for c in carries {
+            if let Some(g) = c.get("group") {
+                groups.insert(g["group_seed"].as_u64().unwrap_or(0), g.clone());
+            }
+        }
+        let mut keys: BTreeMap<u64, Vec<&Value>> = BTreeMap::new();
+        let mut masks: BTreeMap<u64, Vec<&Value>> = BTreeMap::new();
         for c in carries {
             if let Some(k) = c.get("k").and_then(|x| x.as_u64()) {
-                *keys.entry(k).or_insert(0) += 1;
+                keys.entry(k).or_default().push(c);
             }
             if let Some(m) = c.get("m").and_then(|x| x.as_u64()) {
-                *masks.entry(m).or_insert(0) += 1;
+                masks.entry(m).or_default().push(c);
             }
         }
         let mut v = vec![];
-        let kd = keys.values().filter(|c| **c > 1).count();
-        let md = masks.values().filter(|c| **c > 1).count();
-        if kd > 0 {
-            v.push(viol("global-key-repeated", "global-key-repeated", format!("{kd} global key value(s) were used by more than one (execution, party)"), &json!({"duplicates": "keys"})));
-        }
-        if md > 0 {
-            v.push(viol("mask-vector-repeated", "mask-vector-repeated", format!("{md} own-mask vector(s) of >= 64 bits were used by more than one (execution, party)"), &json!({"duplicates": "masks"})));
+        for (what, map, class) in [("keys", &keys, "global-key-repeated"), ("masks", &masks, "mask-vector-repeated")] {
+            let dups: Vec<&Vec<&Value>> = map.values().filter(|c| c.len() > 1).collect();
+            if let Some(d) = dups.first() {
+                let side = |c: &Value| json!({"group": groups.get(&c["gs"].as_u64().unwrap_or(0)), "r": c["r"], "p": c["p"]});
+                v.push(viol(
+                    class,
+                    class,
+                    format!("{} value(s) were used by more than one (execution, party); e.g. execution {} party {} and execution {} party {}", dups.len(), d[0]["r"], d[0]["p"], d[1]["r"], d[1]["p"]),
+                    &json!({"duplicates": what, "a": side(d[0]), "b": side(d[1])}),
+                ));
+            }
         }
         let mut m = BTreeMap::new();
-        m.insert("global_keys_compared".into(), json!(keys.len()));
-        m.insert("mask_vectors_compared".into(), json!(masks.len()));
+        m.insert("global_keys_compared".into(), json!(keys.values().map(|v| v.len()).sum::<usize>()));
+        m.insert("mask_vectors_compared".into(), json!(masks.values().map(|v| v.len()).sum::<usize>()));
         (v, m)
     }
 }
